@@ -134,7 +134,12 @@ class Decoder:
       # back-to-back mid-row codes other than "colour, then italics" are not something an encoder sends: attributes not asserted
       run = self.prev_mid is not None
       pair = run and self.prev_mid[0] == "colour" and info["italic"] and self.prev_mid[1] == info["underline"] and not self.prev_mid[2]
-      self.sure = ((not run) or (pair and self.sure)) and not self.pac_unsure
+      if run:
+        self.sure = pair and self.sure
+      elif not info["italic"]:
+        self.sure = True              # a colour code on its own defines colour, italics (off) and underline
+        self.pac_unsure = False
+      # (an italics code on its own keeps the colour: as certain as it was)
       self.mid_now = ("italic" if info["italic"] else "colour", info["underline"], run)
       # the code itself occupies a cell displayed as a blank
       self._mem()[self.row][self.col] = (" ", "white", False, False, False, None)
@@ -214,7 +219,7 @@ class Decoder:
           self.disp[i] = self.disp[i + 1]
         self.disp[self.base] = [None] * COLS
         self.row, self.col = self.base, 0
-        self.sure = self.pen == DEFAULT_PEN and not self.pac_unsure
+        self.sure = self.sure and self.pen == DEFAULT_PEN and not self.pac_unsure
     elif c == "BS":
       if self.mode is not None and self.col > 0:
         self.col -= 1
